@@ -330,17 +330,17 @@ def _items():
                   inject_head=SOURCE_TRAIT_GHOST, fns_cfg=source_trait,
                   strip_default_body=['find_boundary'],
                   sub_rewrite=[(r'PartialEq \+ Eq \+ Debug', 'PartialEq + Eq')]))
-    I.append(dict(file='src/source.rs', header=r'^impl Source for str$', name='str',
+    I.append(dict(file='src/source.rs', header=r'^impl Source for str$', name='str', trait_name='Source',
                   inject_head=STR_GHOST, fns_cfg=str_fns))
-    I.append(dict(file='src/source.rs', header=r'^impl Source for \[u8\]$', name='[u8]',
+    I.append(dict(file='src/source.rs', header=r'^impl Source for \[u8\]$', name='[u8]', trait_name='Source',
                   inject_head=U8_GHOST, fns_cfg=u8_fns,
                   inherit_default=[dict(file='src/source.rs', header=r'^pub trait Source$', fn='find_boundary',
                                         spec=dict(props=['C02', 'C12']))]))
     I.append(dict(file='src/source.rs', header=r"^pub trait Chunk<'source>", name='Chunk',
                   inject_head=CHUNK_GHOST, fns_cfg=chunk_trait))
-    I.append(dict(file='src/source.rs', header=r"^impl<'source> Chunk<'source> for u8$", name='Chunk for u8',
+    I.append(dict(file='src/source.rs', header=r"^impl<'source> Chunk<'source> for u8$", name='Chunk for u8', trait_name='Chunk',
                   inject_head=CHUNK_U8_GHOST, fns_cfg=chunk_u8))
-    I.append(dict(file='src/source.rs', header=r"^impl<'source, const N: usize> Chunk<'source> for &'source \[u8; N\]$", name='Chunk for &[u8;N]',
+    I.append(dict(file='src/source.rs', header=r"^impl<'source, const N: usize> Chunk<'source> for &'source \[u8; N\]$", name='Chunk for &[u8;N]', trait_name='Chunk',
                   inject_head=CHUNK_ARR_GHOST, fns_cfg=chunk_arr))
     I.append(dict(file='src/lib.rs', header=r"^pub trait Logos<'source>", name='Logos',
                   fns_cfg=lambda cfg: {
@@ -434,17 +434,17 @@ def _items():
                   inject_head=SOURCE_TRAIT_GHOST, fns_cfg=source_trait,
                   strip_default_body=['find_boundary'],
                   sub_rewrite=[(r'PartialEq \+ Eq \+ Debug', 'PartialEq + Eq')]))
-    I.append(dict(file='src/source.rs', header=r'^impl Source for str$', name='str',
+    I.append(dict(file='src/source.rs', header=r'^impl Source for str$', name='str', trait_name='Source',
                   inject_head=STR_GHOST, fns_cfg=str_fns))
-    I.append(dict(file='src/source.rs', header=r'^impl Source for \[u8\]$', name='[u8]',
+    I.append(dict(file='src/source.rs', header=r'^impl Source for \[u8\]$', name='[u8]', trait_name='Source',
                   inject_head=U8_GHOST, fns_cfg=u8_fns,
                   inherit_default=[dict(file='src/source.rs', header=r'^pub trait Source$', fn='find_boundary',
                                         spec=dict(props=['C02', 'C12']))]))
     I.append(dict(file='src/source.rs', header=r"^pub trait Chunk<'source>", name='Chunk',
                   inject_head=CHUNK_GHOST, fns_cfg=chunk_trait))
-    I.append(dict(file='src/source.rs', header=r"^impl<'source> Chunk<'source> for u8$", name='Chunk for u8',
+    I.append(dict(file='src/source.rs', header=r"^impl<'source> Chunk<'source> for u8$", name='Chunk for u8', trait_name='Chunk',
                   inject_head=CHUNK_U8_GHOST, fns_cfg=chunk_u8))
-    I.append(dict(file='src/source.rs', header=r"^impl<'source, const N: usize> Chunk<'source> for &'source \[u8; N\]$", name='Chunk for &[u8;N]',
+    I.append(dict(file='src/source.rs', header=r"^impl<'source, const N: usize> Chunk<'source> for &'source \[u8; N\]$", name='Chunk for &[u8;N]', trait_name='Chunk',
                   inject_head=CHUNK_ARR_GHOST, fns_cfg=chunk_arr))
     I.append(dict(file='src/lib.rs', header=r"^pub trait Logos<'source>", name='Logos',
                   fns_cfg=lambda cfg: {
@@ -490,7 +490,7 @@ def _items():
                   fns_cfg=lambda cfg: {'deref': dict(ret='r', ensures=['*r == self.lexer'], props=['C14'])}))
     I.append(dict(file='src/internal.rs', header=r"^pub trait LexerInternal<'source>$", name='LexerInternal',
                   inject_head=INTERNAL_TRAIT_GHOST, fns_cfg=internal_trait))
-    I.append(dict(file='src/lexer.rs', header=r"^impl<'source, Token> LexerInternal<'source> for Lexer<'source, Token>", name='Lexer(LexerInternal)',
+    I.append(dict(file='src/lexer.rs', header=r"^impl<'source, Token> LexerInternal<'source> for Lexer<'source, Token>", name='Lexer(LexerInternal)', trait_name='LexerInternal',
                   inject_head=INTERNAL_IMPL_GHOST, fns_cfg=internal_impl))
 
 # ---------------------------------------------------------------------------------------------
@@ -557,7 +557,7 @@ def _internal_items():
                   fns_cfg=lambda cfg: {'construct': dict(ret='r', requires=CON_TOTAL, props=['C13'])}))
     for (hdr, name, con, ens) in CONSTRUCT:
         e2 = [x.replace('con.ensures', con + '.ensures') for x in ens]
-        I.append(dict(file='src/internal.rs', header=hdr, name=name,
+        I.append(dict(file='src/internal.rs', header=hdr, name=name, trait_name='CallbackRetVal',
                       fns_cfg=(lambda e2: (lambda cfg: {'construct': dict(ret='r', ensures=e2, props=['C13'])}))(e2)))
 
 def _skip_items(I):
@@ -575,7 +575,7 @@ def _skip_items(I):
                   fns_cfg=lambda cfg: {'construct': dict(ret='r', ensures=['self.skip_post(r)'], props=['C13'])}))
     for (hdr, name, ens) in SKIP_CONSTRUCT:
         body = ' && '.join('(%s)' % e for e in ens)
-        I.append(dict(file='src/internal.rs', header=hdr, name=name,
+        I.append(dict(file='src/internal.rs', header=hdr, name=name, trait_name='SkipRetVal',
                       inject_head="    open spec fn skip_post(self, r: SkipResult<'a, L>) -> bool { %s }\n" % body,
                       fns_cfg=lambda cfg: {'construct': dict(props=['C13'])}))
 
